@@ -214,7 +214,7 @@ T6 = [
  ("r6-c01-1", "C01", "from_poly de-duplicates the precondition rows (as r4-c17-2)", "two parallel rows one unit in the last place apart, the looser one first", ["C01", "C17"], "strengthening prepared from the agent's summary before the first run: such a precondition in C01 (C17 had the rows already)"),
  ("r6-c01-2", "C01", "is_edge_feasible tightens the last label-0 row by 1e-7", "a class head below a non-root node and a region narrower than 1e-7 in the head predicate", [], "not reported: the margin equals the 1e-7 the pruning checks themselves allow for 'thinner than the LP tolerance' (see r5-c07-1); a slab narrower than that is 'either answer' by construction of the oracle"),
  ("r6-c02-1", "C02", "the composition loop is bounded by the size_hint lower bound of the terminal iterator", "generic_composition_inplace called directly with a lazily filtered terminal iterator", ["C02"], "strengthening prepared from the summary: the generic entry point with a filtered iterator as a third twin of compose (pairs of trees with <= 3 nodes)"),
- ("r6-c02-2", "C02", "the root of the right operand is assumed to be arena node 0", "a right operand built from a raw Tree whose root was replaced with add_root", ["C02"], "missed at first: every operand had its root at arena node 0. C02 now also composes operands built over a raw arena whose root was replaced with add_root (right operand alone, and both operands), with a former tree left behind at node 0"),
+ ("r6-c02-2", "C02", "the root of the right operand is assumed to be arena node 0", "a right operand built from a raw Tree whose root was replaced with add_root", ["C02", "C07"], "missed at first: every operand had its root at arena node 0. C02 now also composes operands built over a raw arena whose root was replaced with add_root (right operand alone, and both operands), with a former tree left behind at node 0; C07 has a second pass with both operands re-rooted"),
  ("r6-c03-1", "C03", "the pruning schema zeroes entries of the composed predicate below 1e-10", "two small factors, e.g. a predicate 2^-20 y <= b grafted onto 2^-20 x", ["C03"], "missed at first: factors were of size 1 or far larger; a small-factor family was added to C03"),
  ("r6-c03-2", "C03", "the in-place tree operators apply a right operand with exactly one terminal to every terminal of the left one", "a partial right operand with decisions but one terminal (from_poly without else-branch)", ["C07"], "not reported by C03, whose alphabet has no tree arithmetic as last step over such operands; C07 reports it"),
  ("r6-c04-1", "C04", "infeasible_elimination removes the descendants of a node cached as Infeasible", "a kept infeasible only-child below which an un-pruned composition grafted a subtree, then a second elimination", ["C04"], ""),
